@@ -79,8 +79,44 @@ def small_cases(rng, n):
         yield {'ref': rng.choice(nl), 'branches': brs}
 
 
+FIXED = {   # one fixed exact (dyadic) value per kind: the enumeration below is exhaustive over STRUCTURE
+    'resistor': {'ctor': 'resistor', 'R': 4.0}, 'conductor': {'ctor': 'conductor', 'G': 0.5}, 'impedance': {'ctor': 'impedance', 'Z': [3.0, 4.0]},
+    'admittance': {'ctor': 'admittance', 'Y': [0.25, -0.5]}, 'load_v': {'ctor': 'load_v', 'P': 8.0, 'V_ref': 4.0}, 'load_i': {'ctor': 'load_i', 'P': 6.0, 'I_ref': 2.0},
+    'ideal_v': {'ctor': 'voltage_source', 'V': 5.0}, 'ideal_i': {'ctor': 'current_source', 'I': 0.75}, 'lin_v': {'ctor': 'voltage_source', 'V': [2.0, -1.0], 'Z': 2.0},
+    'lin_i': {'ctor': 'current_source', 'I': -1.5, 'Y': 0.125},
+}
+
+
+def structural_space():
+    """every connected multigraph on <= 3 nodes with <= 3 branches x every assignment of the 10 element kinds x every orientation x every
+    reference node (labels fixed, values fixed per kind): a finite space that the thorough tier enumerates completely"""
+    labels = ('b', 'a', 'c')                 # not in sorted order on purpose
+    ids = ('Z', 'A', 'm')
+    for nn, combo in G.small_topologies(3, 3):
+        for kinds in itertools.product(G.KINDS, repeat=len(combo)):
+            if not any(k in ('ideal_v', 'ideal_i', 'lin_v', 'lin_i') for k in kinds):
+                continue
+            for flips in itertools.product((0, 1), repeat=len(combo)):
+                for ref in range(nn):
+                    yield nn, combo, kinds, flips, ref, labels, ids
+
+
+def structural_case(item):
+    nn, combo, kinds, flips, ref, labels, ids = item
+    brs = []
+    for k, ((i, j), kind, fl) in enumerate(zip(combo, kinds, flips)):
+        if fl:
+            i, j = j, i
+        brs.append({'id': ids[k], 'n1': labels[i], 'n2': labels[j], **FIXED[kind]})
+    return {'ref': labels[ref], 'branches': brs}
+
+
 def generate(tier, seed, shard, nshards):
     rng = random.Random(f'C01/{seed}/{shard}')
+    stride = 1 if tier == 'thorough' else 23
+    for idx, item in enumerate(structural_space()):
+        if idx % nshards == shard and (idx // nshards) % stride == (seed % stride):
+            yield {'stratum': 'structural-exhaustive' if stride == 1 else 'structural-sample', 'net': structural_case(item)}
     if shard == 0:
         for d in directed(rng):
             yield {'stratum': 'directed', 'net': d}
@@ -130,6 +166,13 @@ def judge(case, ctx, prefix='C01'):
             ctx.violation(f'{prefix}/open-circuit-voltage/mismatch', f'open_circuit_voltage({a!r},{b!r}) = {got!r}, exact {exp!r}', {})
         ctx.count('open_circuit_voltage_checked')
     ctx.maxstat('kappa_max_judged', refd['kappa'])
+
+
+def extra_coverage(m):
+    c = m['counters']
+    n = c.get('stratum_structural-exhaustive', 0)
+    return {'exhaustive_subspace': {'description': 'all connected multigraphs on <= 3 nodes / <= 3 branches x all assignments of 10 element kinds with >= 1 source x all orientations x all reference nodes (fixed labels and one exact value per kind)',
+                                    'well_posed_members_judged': n, 'enumerated_completely': n > 0}}
 
 
 def guards(m, tier):
